@@ -36,20 +36,29 @@ theorem disj_lits_none (c : Ctx) (cur : Nat) (ho : c.toks[cur]? = none) :
     have ih := disj_lits_none c cur ho ls (g+1) (by simp at hf; omega)
     simp only [List.map_cons, parseDisj_cons, parse_lit, peek, ho, ih]
 
-def opGroup : Node := .group (.capture "Op" (.group (.disj [(.lit [60]), (.lit [62]), (.lit [62, 61]), (.lit [60, 61]), (.lit [33, 61]), (.lit [61]), (.lit [67, 79, 78, 84, 65, 73, 78, 83]), (.lit [80, 82, 69, 70, 73, 88]), (.lit [83, 85, 70, 70, 73, 88]), (.lit [76, 73, 75, 69])]) .once)) .once
+/-- the operator literals of `Condition.Op` as the REGENERATED grammar lists them — in whatever order: only the set matters
+(first match over literals that exclude each other), so a re-ordering of the alternatives in the struct tag does not break the proof,
+whereas an added, removed or changed literal breaks `grammarOps_perm` -/
+def grammarOps : List Bytes :=
+  match grammar "Condition" with
+  | some (.seq [_, .group (.capture _ (.group (.disj ns) _)) _, _]) =>
+    ns.filterMap (fun n => match n with | .lit s => some s | _ => none)
+  | _ => []
+def opGroup : Node := .group (.capture "Op" (.group (.disj (grammarOps.map .lit)) .once)) .once
 def valGroup : Node := .group (.disj [(.capture "Value" (.ref .string)), (.capture "Value" (.ref .ident)), (.capture "Value" (.ref .number))]) .once
 def condBody : Node := .seq [(.capture "Ident" (.strct "Identifier")), opGroup, valGroup]
 theorem g_cond : grammar "Condition" = some condBody := rfl
+theorem grammarOps_perm : grammarOps.Perm condOps := by decide +kernel
+theorem grammarOps_any (o : Tok) : grammarOps.any (fun l => litMatch o l) = isOpTok o := grammarOps_perm.any_eq
+theorem grammarOps_len : grammarOps.length = 10 := by rw [grammarOps_perm.length_eq]; rfl
 
 theorem opGroup_none (c : Ctx) (f cur : Nat) (hn : c.toks[cur]? = none) : parse c (f+16) opGroup cur = .noMatch := by
-  have := disj_lits_none c cur hn condOps (f+12) (by simp [condOps])
-  simp only [condOps, List.map_cons, List.map_nil] at this
+  have := disj_lits_none c cur hn grammarOps (f+12) (by rw [grammarOps_len]; omega)
   simp only [opGroup, parse_once, parse_capture, parse_disj, this]
 theorem opGroup_some (c : Ctx) (f cur : Nat) (o : Tok) (ho : c.toks[cur]? = some o) :
     parse c (f+16) opGroup cur = if isOpTok o then .ok [.str []] [("Op", [.str o.v])] (cur+1) else .noMatch := by
-  have := disj_lits c cur o ho condOps (f+12) (by simp [condOps])
-  rw [show (condOps.any fun l => litMatch o l) = isOpTok o from rfl] at this
-  simp only [condOps, List.map_cons, List.map_nil] at this
+  have := disj_lits c cur o ho grammarOps (f+12) (by rw [grammarOps_len]; omega)
+  rw [grammarOps_any] at this
   simp only [opGroup, parse_once, parse_capture, parse_disj, this]
   cases isOpTok o <;> simp
 theorem valGroup_none (c : Ctx) (f cur : Nat) (hn : c.toks[cur]? = none) : parse c (f+7) valGroup cur = .noMatch := by
